@@ -2,4 +2,4 @@
 Require Import Base OasisInt OasisSpec OasisRead.
 Require Import Extraction ExtrOcamlBasic.
 Extraction Blacklist List String Int.
-Extraction "../ocaml/extracted/c04r.ml" read_oas_model lib_missing spec_oas_decode cov_oas_decode view Z.of_N Z.mul Z.sub Z.add.
+Extraction "../ocaml/extracted/c04r.ml" read_oas_model lib_missing spec_oas_decode cov_oas_decode diag_oas view Z.of_N Z.mul Z.sub Z.add.
